@@ -35,23 +35,25 @@ type lvar struct {
 
 type ltr struct {
 	*tr
-	p           *packages.Package
-	fname       string
-	recv        string       // receiver identifier ("" = none)
-	recvObj     types.Object // its object
-	mutRecv     []lvar       // receiver fields assigned by the function (returned next to the result)
-	scope       []lvar       // variables in scope, in order of appearance
-	aux         []string     // loop fixpoints, emitted before the function
-	nloop       int
-	g           []string // bounds guards of the expression being translated
-	inFunc      bool     // a `return` is allowed here (not inside a loop body / join)
-	retCls      string
-	flat        map[string]bool // x_f for fields of local struct variables read inside an extracted loop
-	inLoop      int             // > 0: `break` allowed (leaves the innermost loop)
-	brk         bool            // the loop being translated contains a break: its body yields (continue?, state)
-	brkRet      string          // what `break` evaluates to in that body
-	elemMethods []string        // methods called on the elements of an LT slice (parameters of the generated section)
-	sliceRecv   string          // the receiver when it is an LT slice: the function returns it
+	p            *packages.Package
+	fname        string
+	recv         string       // receiver identifier ("" = none)
+	recvObj      types.Object // its object
+	mutRecv      []lvar       // receiver fields assigned by the function (returned next to the result)
+	scope        []lvar       // variables in scope, in order of appearance
+	aux          []string     // loop fixpoints, emitted before the function
+	nloop        int
+	g            []string // bounds guards of the expression being translated
+	inFunc       bool     // a `return` is allowed here (not inside a loop body / join)
+	retCls       string
+	flat         map[string]bool // x_f for fields of local struct variables read inside an extracted loop
+	inLoop       int             // > 0: `break` allowed (leaves the innermost loop)
+	brk          bool            // the loop being translated contains a break: its body yields (continue?, state)
+	brkRet       string          // what `break` evaluates to in that body
+	elemMethods  []string        // methods called on the elements of an LT slice (parameters of the generated section)
+	sliceRecv    string          // the receiver when it is an LT slice: the function returns it
+	elemMutators []string        // pointer-receiver methods called as statements on elements: M : T -> N -> T
+	outVars      []lvar          // a function without result returns these (LT slices it reorders, the collector calls it makes)
 }
 
 func (t *ltr) clsL(ty types.Type) string {
@@ -81,6 +83,88 @@ func mangle(n string) string {
 	return n
 }
 
+var idCodec = map[string]bool{"NewEntryID": true, "EntryID_GetConjID": true, "EntryID_IsInclude": true, "EntryID_IsExclude": true,
+	"EntryID_IsNULLEntry": true, "ConjID_DocID": true, "ConjID_Size": true, "ConjID_Index": true}
+
+// statements that only log (Logger.X(...), LogInfoIf / LogDebugIf / LogErrIf(...), and an `if` over a debug flag of the
+// retrieve context whose body only logs) are dropped: the translation assumes logging does not touch the scan state
+func onlyLogs(s ast.Stmt) bool {
+	switch x := s.(type) {
+	case *ast.ExprStmt:
+		c, ok := x.X.(*ast.CallExpr)
+		if !ok {
+			return false
+		}
+		switch f := c.Fun.(type) {
+		case *ast.Ident:
+			return f.Name == "LogInfoIf" || f.Name == "LogDebugIf" || f.Name == "LogErrIf"
+		case *ast.SelectorExpr:
+			if id, ok := f.X.(*ast.Ident); ok && id.Name == "Logger" {
+				return true
+			}
+		}
+	case *ast.IfStmt:
+		if x.Init != nil || x.Else != nil {
+			return false
+		}
+		sel, ok := x.Cond.(*ast.SelectorExpr)
+		if !ok || !strings.HasPrefix(sel.Sel.Name, "dump") {
+			return false
+		}
+		for _, b := range x.Body.List {
+			if !onlyLogs(b) {
+				return false
+			}
+		}
+		return true
+	}
+	return false
+}
+
+func dropLogs(list []ast.Stmt) []ast.Stmt {
+	var r []ast.Stmt
+	for _, s := range list {
+		if !onlyLogs(s) {
+			r = append(r, s)
+		}
+	}
+	return r
+}
+
+// the three statement-level calls with an effect on the translated state:
+//
+//	a[i].M(args)             element i of an LT slice replaced by what its pointer-receiver method M leaves ("mut")
+//	a.Sort()                 an LT slice sorted by the translated FieldCursors.Sort                          ("sort")
+//	ctx.collector.Add(d, c)  one collector call, appended to the list ctx_collector                         ("add")
+func (t *ltr) effectCall(s ast.Stmt) (kind, target string, call *ast.CallExpr) {
+	es, ok := s.(*ast.ExprStmt)
+	if !ok {
+		return
+	}
+	c, ok := es.X.(*ast.CallExpr)
+	if !ok {
+		return
+	}
+	sel, ok := c.Fun.(*ast.SelectorExpr)
+	if !ok {
+		return
+	}
+	if ix, ok := sel.X.(*ast.IndexExpr); ok && t.clsL(t.info.Types[ix.X].Type) == "LT" {
+		if id, ok := ix.X.(*ast.Ident); ok {
+			return "mut", mangle(id.Name), c
+		}
+	}
+	if id, ok := sel.X.(*ast.Ident); ok && sel.Sel.Name == "Sort" && len(c.Args) == 0 && t.clsL(t.info.Types[sel.X].Type) == "LT" {
+		return "sort", mangle(id.Name), c
+	}
+	if in, ok := sel.X.(*ast.SelectorExpr); ok && sel.Sel.Name == "Add" && in.Sel.Name == "collector" && len(c.Args) == 2 {
+		if id, ok := in.X.(*ast.Ident); ok {
+			return "add", id.Name + "_collector", c
+		}
+	}
+	return
+}
+
 func coqTy(c string) string {
 	switch c {
 	case "Z":
@@ -93,6 +177,8 @@ func coqTy(c string) string {
 		return "list N"
 	case "LT":
 		return "list T"
+	case "LH":
+		return "list (Z * N)"
 	}
 	return "UNTRANSLATABLE_type"
 }
@@ -249,6 +335,23 @@ func (t *ltr) lexpr(e ast.Expr) string {
 		if id, ok := x.Fun.(*ast.Ident); ok && id.Name == "append" && len(x.Args) == 2 && c == "L" && t.clsL(t.info.Types[x.Args[1]].Type) == "N" {
 			return "(" + t.lexpr(x.Args[0]) + " ++ [" + t.lexpr(x.Args[1]) + "])"
 		}
+		// the id codecs (translated in IdsGen.v): functions and methods on integer-class values
+		if id, ok := x.Fun.(*ast.Ident); ok && idCodec[id.Name] {
+			var args []string
+			for _, a := range x.Args {
+				args = append(args, t.lexpr(a))
+			}
+			return "(IdsGen." + id.Name + " " + strings.Join(args, " ") + ")"
+		}
+		if sel, ok := x.Fun.(*ast.SelectorExpr); ok && len(x.Args) == 0 {
+			if selInfo, ok := t.info.Selections[sel]; ok {
+				if n := recvName(selInfo.Recv()) + "_" + sel.Sel.Name; idCodec[n] {
+					if rc := t.clsL(t.info.Types[sel.X].Type); rc == "N" || rc == "Z" {
+						return "(IdsGen." + n + " " + t.lexpr(sel.X) + ")"
+					}
+				}
+			}
+		}
 		if sel, ok := x.Fun.(*ast.SelectorExpr); ok && len(x.Args) == 0 && c == "N" {
 			if ix, ok := sel.X.(*ast.IndexExpr); ok && t.clsL(t.info.Types[ix.X].Type) == "LT" && t.clsL(t.info.Types[ix.Index].Type) == "Z" {
 				a, i := t.lexpr(ix.X), t.lexpr(ix.Index)
@@ -301,7 +404,13 @@ func (t *ltr) guarded(val func() string, body func(v string) string) string {
 
 // variables assigned (not declared) in a statement list, recursively; declared ones are body-local
 func (t *ltr) assignedIn(list []ast.Stmt, out map[string]bool, local map[string]bool) bool {
-	for _, s := range list {
+	for _, s := range dropLogs(list) {
+		if kind, target, _ := t.effectCall(s); kind != "" {
+			if !local[target] {
+				out[target] = true
+			}
+			continue
+		}
 		switch x := s.(type) {
 		case *ast.AssignStmt:
 			if a, _, _, ok := t.swapOf(x); ok {
@@ -426,6 +535,7 @@ func pat(vs []lvar) string {
 }
 
 func terminal(list []ast.Stmt) bool {
+	list = dropLogs(list)
 	if len(list) == 0 {
 		return false
 	}
@@ -439,10 +549,39 @@ func terminal(list []ast.Stmt) bool {
 
 // k = what falling off the end of the list evaluates to
 func (t *ltr) lstmts(list []ast.Stmt, k string, ind string) string {
+	list = dropLogs(list)
 	if len(list) == 0 {
 		return k
 	}
 	s, rest := list[0], list[1:]
+	if kind, target, call := t.effectCall(s); kind != "" && t.inScope(target) {
+		switch kind {
+		case "sort":
+			return "bind (FieldCursors_Sort T GetCurEntryID fuel " + target + ")\n" + ind + "(fun " + target + " =>\n" + ind + t.lstmts(rest, k, ind) + ")"
+		case "add":
+			return t.guarded(func() string { return "(" + t.lexpr(call.Args[0]) + ", " + t.lexpr(call.Args[1]) + ")" }, func(v string) string {
+				return "let " + target + " := " + target + " ++ [" + v + "] in\n" + ind + t.lstmts(rest, k, ind)
+			})
+		case "mut":
+			sel := call.Fun.(*ast.SelectorExpr)
+			ix := sel.X.(*ast.IndexExpr)
+			m := sel.Sel.Name
+			if len(call.Args) == 1 && t.clsL(t.info.Types[call.Args[0]].Type) == "N" && t.clsL(t.info.Types[ix.Index].Type) == "Z" {
+				seen := false
+				for _, e := range t.elemMutators {
+					seen = seen || e == m
+				}
+				if !seen {
+					t.elemMutators = append(t.elemMutators, m)
+				}
+				t.g = nil
+				vi, va := t.lexpr(ix.Index), t.lexpr(call.Args[0])
+				g := append(t.g, "(inbT "+target+" "+vi+")")
+				t.g = nil
+				return "if negb (" + strings.Join(g, " && ") + ") then Panic else\n" + ind + "let " + target + " := updWith (fun e => " + m + " e " + va + ") " + target + " " + vi + " in\n" + ind + t.lstmts(rest, k, ind)
+			}
+		}
+	}
 	switch x := s.(type) {
 	case *ast.ReturnStmt:
 		if !t.inFunc {
@@ -450,6 +589,9 @@ func (t *ltr) lstmts(list []ast.Stmt, k string, ind string) string {
 		}
 		if len(x.Results) == 0 && t.sliceRecv != "" {
 			return "Ret " + t.sliceRecv
+		}
+		if len(x.Results) == 0 && len(t.outVars) > 0 {
+			return "Ret " + tupleV(t.outVars)
 		}
 		if len(x.Results) == 1 {
 			return t.guarded(func() string { return t.lexpr(x.Results[0]) }, func(v string) string {
@@ -638,7 +780,7 @@ func (t *ltr) recvAssigned(fd *ast.FuncDecl) []string {
 	return order
 }
 
-var cursorFuncs = []string{"EntriesCursor_linearSkipTo", "EntriesCursor_SkipTo", "FieldCursors_Sort"}
+var cursorFuncs = []string{"EntriesCursor_linearSkipTo", "EntriesCursor_SkipTo", "FieldCursors_Sort", "KGroupsBEIndex_retrieveK"}
 
 // the receiver's integer / slice fields, in declaration order, as variables recv_<field>
 func (t *ltr) recvFields(rt types.Type) []lvar {
@@ -699,7 +841,25 @@ func translateLoopFuncs(p *packages.Package, want []string) (defs []string, errs
 			t.fname = name
 			for _, fl := range fd.Type.Params.List {
 				for _, n := range fl.Names {
-					t.declare(mangle(n.Name), t.clsL(p.TypesInfo.TypeOf(fl.Type)))
+					c := t.clsL(p.TypesInfo.TypeOf(fl.Type))
+					if c == "?" {
+						// a parameter outside the subset (the retrieve context): only its collector is modelled, as the list of calls made
+						if pt, ok := p.TypesInfo.TypeOf(fl.Type).(*types.Pointer); ok {
+							if st, ok := pt.Elem().Underlying().(*types.Struct); ok {
+								for i := 0; i < st.NumFields(); i++ {
+									if st.Field(i).Name() == "collector" {
+										t.declare(n.Name+"_collector", "LH")
+										t.outVars = append(t.outVars, lvar{n.Name + "_collector", "LH"})
+									}
+								}
+							}
+						}
+						continue
+					}
+					t.declare(mangle(n.Name), c)
+					if c == "LT" {
+						t.outVars = append([]lvar{{mangle(n.Name), "LT"}}, t.outVars...)
+					}
 				}
 			}
 			nparams := len(t.scope)
@@ -726,6 +886,24 @@ func translateLoopFuncs(p *packages.Package, want []string) (defs []string, errs
 					text += "\n"
 				}
 				text += fmt.Sprintf("Definition %s (fuel : nat) %s : res (list T) :=\n  %s.\nEnd %s_S.\n", name, strings.Join(pdecl, " "), body, name)
+			} else if len(t.outVars) > 0 && (fd.Type.Results == nil || len(fd.Type.Results.List) == 0) {
+				var pdecl []string
+				for _, v := range t.scope[:nparams] {
+					pdecl = append(pdecl, fmt.Sprintf("(%s : %s)", v.name, coqTy(v.cls)))
+				}
+				body := t.lstmts(fd.Body.List, "Ret "+tupleV(t.outVars), "  ")
+				text = fmt.Sprintf("Section %s_S.\nVariable T : Type.\n", name)
+				for _, m := range t.elemMethods {
+					text += fmt.Sprintf("Variable %s : T -> N.\n", m)
+				}
+				for _, m := range t.elemMutators {
+					text += fmt.Sprintf("Variable %s : T -> N -> T.\n", m)
+				}
+				text += strings.Join(t.aux, "\n")
+				if len(t.aux) > 0 {
+					text += "\n"
+				}
+				text += fmt.Sprintf("Definition %s (fuel : nat) %s : res (%s) :=\n  %s.\nEnd %s_S.\n", name, strings.Join(pdecl, " "), tupleTy(t.outVars), body, name)
 			} else if fd.Type.Results == nil || len(fd.Type.Results.List) != 1 {
 				t.fail(fd, "exactly one result expected")
 			} else {
@@ -765,6 +943,8 @@ func translateLoopFuncs(p *packages.Package, want []string) (defs []string, errs
 }
 
 const loopHeader = `From Coq Require Import NArith ZArith Bool List.
+From BE Require Gen.IdsGen.
+Module IdsGen := BE.Gen.IdsGen.
 Import ListNotations.
 Local Open Scope bool_scope.
 Definition u64 (n : N) : N := (n mod 18446744073709551616)%N.
@@ -789,6 +969,13 @@ Fixpoint updT {T : Type} (l : list T) (i : nat) (x : T) : list T :=
   | _ :: r, O => x :: r
   | y :: r, S i' => y :: updT r i' x
   end.
+Fixpoint updNth {T : Type} (f : T -> T) (l : list T) (i : nat) : list T :=
+  match l, i with
+  | [], _ => []
+  | x :: r, O => f x :: r
+  | y :: r, S i' => y :: updNth f r i'
+  end.
+Definition updWith {T : Type} (f : T -> T) (l : list T) (i : Z) : list T := updNth f l (Z.to_nat i).
 Definition swapT {T : Type} (l : list T) (i j : Z) : list T :=
   match nth_error l (Z.to_nat i), nth_error l (Z.to_nat j) with
   | Some a, Some b => updT (updT l (Z.to_nat i) b) (Z.to_nat j) a
